@@ -321,6 +321,16 @@ def run_lime(ctx, d):
     bh, bw = d["block"]
     seg = (np.arange(h)[:, None] // bh) * ((w_ + bw - 1) // bw) + (np.arange(w_)[None, :] // bw)
     nseg = int(seg.max()) + 1
+    # segment ids need not follow the raster scan: column-major, reversed or shuffled numberings of the same blocks
+    num = d.get("numbering", "row")
+    if num != "row":
+        ids = np.arange(nseg)
+        gw_, gh_ = (w_ + bw - 1) // bw, (h + bh - 1) // bh
+        perm = {"col": (ids % gw_) * gh_ + ids // gw_, "rev": nseg - 1 - ids}.get(num)
+        if perm is None:
+            perm = np.random.default_rng(d["case_seed"] + 7).permutation(nseg)
+        seg = perm[seg]
+    ctx.count("lime_numbering", num)
     model = RegionModel(rng, shape, rect, d["bias"])
     x = rng.integers(1, 4, size=(1,) + shape).astype(np.float32)
     y = np.ones((1, 1), np.float32)
@@ -524,7 +534,8 @@ def gen_cases(ctx):
         nseg = gh * gw
         cases.append({"method": method, "shape": [h, w_, c], "block": [bh, bw], "rect": list(rect), "region": name,
                       "bias": int(rng.integers(0, 4)), "nb": int(max(60, 12 * nseg)) if method == "kshap" else int(max(200, 12 * nseg)),
-                      "ref": None if rng.random() < 0.5 else [0.0] * c, "bs": pick([None, 16, 50]), "case_seed": seed()})
+                      "ref": None if rng.random() < 0.5 else [0.0] * c, "bs": pick([None, 16, 50]),
+                      "numbering": pick(["row", "col", "rev", "shuf"]), "case_seed": seed()})
     # RISE: mask alignment (crop window of the bilinear upsample) on non-square images via the C09 case runner
     for _ in range(8 * k):
         h, w_ = pick(SHAPES)
